@@ -178,6 +178,12 @@ func genC16(t *rapid.T) *c16Case {
 		c.Desc = fmt.Sprintf("still %dx%d lossless=%v alph=%s flags=%#x flip=%#x metaFirst=%v", e.W, e.H, lossless, alphMode, flags, flip, metaFirst)
 	default: // riffgen-anim
 		n := rapid.IntRange(1, 5).Draw(t, "nFrames")
+		// rare: long animations around the container's chunk/frame limits (1000 chunks, 10000 frames);
+		// the frames beyond the fifth repeat one small bitstream so the case stays cheap to draw
+		long := 0
+		if rapid.IntRange(0, 24).Draw(t, "longAnim") == 7 {
+			long = rapid.SampledFrom([]int{250, 990, 996, 997, 998, 999, 1000, 1001, 1002, 1500, 4000, 9999, 10000}).Draw(t, "longN")
+		}
 		cw, ch := 48, 40
 		flags := byte(0x02)
 		var frames [][]byte
@@ -210,6 +216,28 @@ func genC16(t *rapid.T) *c16Case {
 			}
 			p = append(p, riffChunk(id, e.Bitstream, true)...)
 			frames = append(frames, riffChunk("ANMF", p, true))
+		}
+		if long > n {
+			e := pool[0]
+			for _, q := range pool {
+				if q.Alph == nil && len(q.Bitstream) < len(e.Bitstream) || e.Alph != nil {
+					e = q
+				}
+			}
+			h := make([]byte, 16)
+			h[6], h[9], h[12] = byte(e.W-1), byte(e.H-1), 10
+			id := "VP8 "
+			if e.Bitstream[0] == 0x2f {
+				id = "VP8L"
+				if (binary.LittleEndian.Uint32(e.Bitstream[1:5])>>28)&1 == 1 {
+					anyAlpha = true
+				}
+			}
+			one := riffChunk("ANMF", append(h, riffChunk(id, e.Bitstream, true)...), true)
+			for len(frames) < long {
+				frames = append(frames, one)
+			}
+			n = long
 		}
 		if anyAlpha {
 			flags |= 0x10
